@@ -70,6 +70,48 @@ CLAIMS.update({
         technique="symbolic kernel normal forms with arg-successor tracking (ast)", ref="5/C14"),
 })
 
+CLAIMS.update({
+    "C08": dict(
+        text="Abstract bisimulation for all board sizes at once: the three emitted games, summarised symbolically into blocks of L*W states + 2 tails, are compared with a Roborta rule model for every "
+             "case of the exact partition (4 column cases x 3 row cases x 4 arrows x 2 loose) by polynomial identity of target indices, label sets and probability distributions; owners, rewards, "
+             "final/absorbing tails; plus an argument-swap rule. Agreement in every case is agreement for every board because board values only pass through the comparisons that induce the partition.",
+        note="Trusted: ast, sa/symx.py + sa/genabs.py, the rule model in sa/genabs.py (written from the property statement). Assumes moves in 0..3, loose in 0..1, L x W tables (C15.4/5).",
+        technique="abstract interpretation over polynomial index domain + exact case partition; bisimulation against a rule model (ast)", ref="5/C08"),
+    "C09": dict(
+        text="Validation summarised symbolically and evaluated on one representative per cell of the exact partition the guards induce (type x length x order relative to 0 and n), broken component at every "
+             "position, n in {1,2,4}: ill-formed => ValueError, well-formed => accepted, guards never crash; placement before any value iteration; constructors always validate; batch runner catches ValueError, "
+             "records the message, and dereferences nothing unvalidated outside the try.",
+        note="Trusted: ast, sa/symx.py, sa/guards.py (term evaluator; no repository code executed). Rules outside the documented list are not decided.",
+        technique="symbolic guard summaries + exact cell evaluation; CFG dominance for placement (ast)", ref="5/C09"),
+    "C11": dict(
+        text="Output template parses to exactly game_a/b/c with a comment-only preamble for every board size; replace chain is whitespace-only and cannot hit a string constant; abstract games are well-formed in every case "
+             "(equal lengths = total*L*W+2, one non-empty entry per tile, targets in range, typed labels, probabilities in {1,p,1-p} summing to 1, absorbing win/lose, single final); reader evaluates the unmodified text. "
+             "'Then solved or reported unsolvable' is NOT decided here (C06/C09; generated games need not be stopping).",
+        note="Trusted: ast, sa/genabs.py, ast.parse of the reconstructed template. Manual entry point: positivity of probabilities is the caller's obligation.",
+        technique="symbolic output-template reconstruction + abstract game well-formedness (ast)", ref="5/C11"),
+    "C12": dict(
+        text="run_games summarised symbolically: distinct keys name / name_no_prune by unrolling the literal mode loop; mode reaches the solver; isolation (input-pure solver or per-iteration deep copy; no loop-carried recorded value; "
+             "no shared mutable updated in place; solver carries no state, C10.2); failure protocol (flag per game, try/except ValueError, message embeds the error, no early exit, nothing unvalidated dereferenced outside the try); "
+             "every record key traced to its slot of solve() and the node field behind it.",
+        note="Trusted: ast, sa/symx.py (try/except modelled as a 'raised' alternative at the first call of the body).",
+        technique="symbolic loop summaries with unrolling + provenance chains (ast)", ref="5/C12"),
+    "C15": dict(
+        text="Eight range checks decided exactly by cell evaluation (singly and pairwise), parser types/defaults, validation dominates generation and file creation, values flow under their own names, seeding dominates every draw, "
+             "shape L x W, loose flag = [U < p], arrow populations and forced down tile, reward formula normal form (convex combination => reward in [0, max_reward]). Empirical loose-tile frequency NOT decided.",
+        note="Trusted: ast, sa/guards.py, sa/symx.py. Assumes random.random() in [0,1).",
+        technique="symbolic guard summaries + exact cell evaluation; CFG dominance; expression normal forms (ast)", ref="5/C15"),
+    "C16": dict(
+        text="Provenance of every report line: label -> hole -> key of the current entry (or equality of the two strategy lists), lossless holes, key sets of writer and run_games agree, one block per entry in insertion order, "
+             "path outputs/<cut-at-first-dot(base name(input))>.txt from the same argument that was read, reader evaluates the unmodified text.",
+        note="Trusted: ast, sa/symx.py (helpers inlined and judged by content).",
+        technique="provenance chains over symbolic write effects (ast)", ref="5/C16"),
+    "C17": dict(
+        text="prob_to_str reaches str() through a rounding (never truncating) conversion of prob*100 - exact for the property because k/100*100 is within one ulp of k; the file-name templates of main() and "
+             "create_sg_from_board() contain every parameter once under its own prefix, '_'-separated, traced to the parsed argument of the same name; argument-swap rule.",
+        note="Trusted: ast, sa/symx.py string templates.",
+        technique="symbolic string-template extraction + conversion idiom classification (ast)", ref="5/C17"),
+})
+
 NOT_YET = {}
 
 ALL = ["C%02d" % i for i in range(1, 18)]
